@@ -290,9 +290,9 @@ Definition xs_call (s : xstate) (t : N) (k : call) : xstate :=
     | OReadQLen =>
       if (v <? 0)%Z then xs_emit s (ORet t (RErr EBadValue))
       else
-        (* a new empty queue; parked RecvMsg calls loop and re-arm their deadline from the current option *)
-        let ths := map (fun th => {| th_id := th_id th; th_ctx := th_ctx th;
-                                     th_due := if 0 <? xs_exp s then Some (xs_now s + xs_exp s) else th_due th |}) (xs_threads s) in
+        (* a new empty queue; parked RecvMsg calls loop and wait on it, keeping the deadline of their call (the code as
+           found created the timer inside the loop, restarting the deadline: repaired in /repo, see known_findings.json) *)
+        let ths := xs_threads s in
         xs_emit (xs_opts (xs_with s [] ths (xs_out s)) (Z.to_N v) (xs_exp s) (xs_closed s)) (ORet t ROk)
     | _ => xs_emit s (ORet t (RErr EBadOption))
     end
